@@ -1247,7 +1247,10 @@ fn judge_image(
                             }
                         }
                         let high = pl.records[..jbest].iter().filter_map(|(r, _, _)| if let MRec::Append(id, _) = r { Some(*id) } else { None }).max();
-                        let key = if e.contains("Chunk not found") && Some(appended) <= high {
+                        // classified by the mechanism (not by the wording of the error): the
+                        // read-back after the append failed and the appended id is at or below
+                        // an id journalled earlier
+                        let key = if e.starts_with("after recovery + writes") && Some(appended) <= high {
                             "F3:read-error-on-entry-reappended-below-truncated-id"
                         } else {
                             "recovered-store-not-usable-under-cache-pressure"
@@ -1264,7 +1267,8 @@ fn judge_image(
             Opened::Err(e) => {
                 stats.outcome("recovery-refused");
                 if spec.o_c05 {
-                    let key = if e.contains("Gap between chunks") && image_has_rotation_gap(img, pl) {
+                    // classified by the image alone (not by the wording of the error)
+                    let key = if image_has_rotation_gap(img, pl) {
                         "F5:gap-before-chunk-created-by-unfinished-rotation"
                     } else {
                         "recovery-refused"
